@@ -1,4 +1,5 @@
 import PyxisVerif.Props.C07
+import PyxisVerif.Props.Exec
 #print axioms PyxisVerif.C07.addFunctions_spec
 #print axioms PyxisVerif.C07.every_public_reexposed
 #print axioms PyxisVerif.C07.private_not_reexposed
@@ -6,3 +7,9 @@ import PyxisVerif.Props.C07
 #print axioms PyxisVerif.C07.forwarder_shape
 #print axioms PyxisVerif.C07.conversions_emitted
 #print axioms PyxisVerif.C07.dfs_unfold
+#print axioms PyxisVerif.Exec.forwarder_calls_original_on_subobject
+#print axioms PyxisVerif.Exec.every_public_function_forwarded
+#print axioms PyxisVerif.Exec.forwarder_on_built_type
+#print axioms PyxisVerif.Exec.built_type_forwarders
+#print axioms PyxisVerif.Exec.case_forwarders
+#print axioms PyxisVerif.Exec.fieldOffsets_compiled
